@@ -3,7 +3,7 @@
 //! `-` means "the reference has no such operation / is not applicable to this input".
 
 use libp2p_identity::{ParseError, PeerId, PublicKey};
-use litep2p::verif::{hex, unhex, VerifBox};
+use litep2p::verif::{hex, unhex as crate_unhex, VerifBox};
 use multiaddr::{Multiaddr, Protocol};
 
 use std::str::FromStr;
@@ -25,8 +25,14 @@ impl VerifBox for Both {
     }
 }
 
+/// Byte-string arguments are written `0x<hex>` (so that the empty string is a token).
 fn is_hex(s: &str) -> bool {
-    s.len() % 2 == 0 && s.bytes().all(|b| b.is_ascii_hexdigit())
+    s.strip_prefix("0x")
+        .map_or(false, |s| s.len() % 2 == 0 && s.bytes().all(|b| b.is_ascii_hexdigit()))
+}
+
+fn unhex(s: &str) -> Vec<u8> {
+    crate_unhex(&s[2..])
 }
 
 fn parse_err(e: ParseError) -> String {
